@@ -212,6 +212,9 @@ class Interp(ExprMixin, StmtMixin):
                 return h(self, path, f, args, kwargs)
             raise Unsupported(f"call of {f!r}")
         if f is None:
+            if self.merging:       # inside an element closure: the element raises, not the whole path
+                self.note_elem_raise(z3.BoolVal(True))
+                return SV(path.fresh("unreachable"))
             raise PyRaise(TypeError, note="'NoneType' object is not callable")
         return self.call_builtin(f, args, kwargs, path)
 
